@@ -1,17 +1,15 @@
-SPECIFICATION TrSpec
+SPECIFICATION CovSpec
 CONSTANTS
-  MaxWorkers = 8
-  MaxSpurious = 1000
+  MaxWorkers = 2
+  MaxSpurious = 0
+  RelOrd = "Release"
+  AcqOrd = "Acquire"
   ParkLoop = TRUE
   CloneFirst = TRUE
+CONSTANT History <- H_21
 INVARIANTS
   OncePerIndex
   ReturnAfterAllCalls
   ReturnHappensAfterCalls
   NoAccessAfterDrop
-  SpawnOnlyMissing
-  NoDeadlockObserved
-  NoLeakObserved
-  NoAbortObserved
-POSTCONDITION TraceAccepted
 CHECK_DEADLOCK FALSE
